@@ -51,12 +51,18 @@ def unbounded(ctx):
         got = vlib.apalache(ctx, "LamportInd", args)
         if got != want:
             raise vlib.Inconclusive("LamportInd: apalache %s gave %s, expected %s -- spec error, no verdict" % (" ".join(args), got, want))
+    # the harness embedding of 0..MAX into uint64 (up() in harness/cmd/lamport/main.go, same as the events harness):
+    # order-preserving, +1 commutes except across the gap, MAX |-> 2^64-1 -- for every MAX (spec/EmbedLaw.tla)
+    got = vlib.apalache(ctx, "EmbedLaw", ["--init=Init", "--inv=Law", "--length=0"])
+    if got != "ok":
+        raise vlib.Inconclusive("EmbedLaw: apalache gave %s, expected ok -- spec error, no verdict" % got)
     ref = vlib.tlc(ctx, "MC_LamportInd", "INIT Init\nNEXT Next\nCONSTANT MAX = 4\nCONSTANT Threads = {1, 2}\n"
                    "CONSTANT Vals <- MCVals\nINVARIANT IndInv\nINVARIANT C19\nPROPERTY RefinesLamport\n")
     if ref.violated:
         raise vlib.Inconclusive("LamportInd does not refine Lamport.tla at MAX=4 (%s) -- spec error, no verdict" % ref.violated)
     return {"tool": "apalache-mc 0.58.0 (inductive step, MAX symbolic, 6 threads) + TLC refinement LamportInd => Lamport!Acts",
-            "obligations": ["Init => IndInv", "IndInv /\\ Next => IndInv'", "IndInv => C19", "wrap finding reachable in <= 4 steps"],
+            "obligations": ["Init => IndInv", "IndInv /\\ Next => IndInv'", "IndInv => C19", "wrap finding reachable in <= 4 steps",
+                            "harness embedding 0..MAX -> uint64 keeps order, +1 and the top (EmbedLaw)"],
             "refinement_states": ref.distinct, "refinement_constants": "MAX=4, 2 threads, witness values 0..4"}
 
 
